@@ -297,6 +297,11 @@ def eventParamsOk (tbl : List OptionRow) (o : Nat → Val IsoClass) (name : Byte
   intIs (eventField tbl o name "count") (fun z => decide (z ≤ maxEventCount)) &&
   intIs (eventField tbl o name "timescale") (fun z => decide (1 ≤ z)) &&
   intIs (eventField tbl o name "duration") (fun z => decide (0 ≤ z)) &&
+  -- `start < 0 and not inband` is refused (23db72d)
+  (intIs (eventField tbl o name "start") (fun z => decide (0 ≤ z)) ||
+    (match eventField tbl o name "inband" with
+     | .bool b => b
+     | _ => true)) &&
   intIs (eventField tbl o name "version") (fun z => decide (z = 0 ∨ z = 1))
 
 /-- `availabilityStartTime`: `None` → the default, a special name stays, an aware
@@ -330,9 +335,13 @@ def eventsOk (tbl : List OptionRow) (o : Nat → Val IsoClass) : Bool :=
   (listItems (field tbl o "events")).all fun name =>
     !(eventTypes.map ascii).contains name || eventParamsOk tbl o name
 
+/-- `MAX_TIME_SHIFT_BUFFER_DEPTH` -/
+def maxTimeShiftBufferDepth : Int := 5000000
+
 def spansOk (tbl : List OptionRow) (o : Nat → Val IsoClass) : Bool :=
   timeSpanOk (field tbl o "drift") && timeSpanOk (field tbl o "leeway") &&
-    timeSpanOk (field tbl o "mup") && timeSpanOk (field tbl o "depth")
+    timeSpanOk (field tbl o "mup") && timeSpanOk (field tbl o "depth") &&
+    intIs (field tbl o "depth") (fun z => decide (z ≤ maxTimeShiftBufferDepth))
 
 def setStart (tbl : List OptionRow) (o : Nat → Val IsoClass) (ast : Val IsoClass) : Nat → Val IsoClass :=
   match findRow tbl (ascii "start") with
